@@ -91,6 +91,14 @@ def write_geometry(cfg, level, wd, ident, sigmas=None):
     m = models.nested(cfg["radii"], sigmas or cfg["sigmas"], level, centre=tuple(cfg["centre"]), names=["s%d_%d" % (ident, k) for k in range(len(cfg["radii"]))])
     models.write_model(m, wd, fmt="tri", stem="m%d" % ident)
 
+def geometry_files(cfg, level, wd):
+    """the exact input files of a configuration, as text (stored in replays)"""
+    d = os.path.join(wd, "replayfiles"); os.makedirs(d, exist_ok=True)
+    write_geometry(cfg, level, d, 0)
+    out = {f: open(os.path.join(d, f)).read() for f in sorted(os.listdir(d))}
+    import shutil; shutil.rmtree(d, ignore_errors=True)
+    return out
+
 def shift(p, c): return [p[0] + c[0], p[1] + c[1], p[2] + c[2]]
 
 def impl_case(cfg, level, ident, with_eeg=True):
@@ -275,7 +283,8 @@ def report(ck, cal, runner, cfg, level, tag):
                  % (tag, mname, v, b, j, d["kind"], d["ecc"], ["%.4g" % x for x in d["pos"]], ["%.4g" % x for x in d["mom"]], describe(small, level)),
                  dict(kind="sphere-config", config=small, level=level, exceed=[list(x) for x in bad[:10]],
                       expected_analytic=mod, obtained_pipeline=imp, original_config=cfg,
-                      files="geometry regenerated by lib/models.nested(radii, sigmas, level, centre) and written as m<id>.geom/.cond/.tri (17 digits)",
+                      files=geometry_files(small, level, ck.workdir) if level <= 2 else "geometry regenerated by lib/models.nested(radii, sigmas, level, centre), written as m<id>.geom/.cond/.tri (17 digits)",
+                      dipoles=[shift(x["pos"], small["centre"]) + x["mom"] for x in small["dipoles"]],
                       replay_cmd="./check C01 --replay <this file>"))
 
 def main(replay=None, calibrate=False):
@@ -394,13 +403,24 @@ def main(replay=None, calibrate=False):
     for c in cfgs[4:4 + nsig] if len(cfgs) >= 4 + nsig else cfgs[:nsig]:
         k = rng.choice([0.25, 3.0, 10.0])
         s2 = gen_sigmas(rng, len(c["radii"]))
-        sjobs += [(c, 1, None, False), (c, 1, [k * s for s in c["sigmas"]], False), (c, 1, s2, False)]; spec.append((c, k, s2))
+        sjobs += [(c, 1, None, True), (c, 1, [k * s for s in c["sigmas"]], True), (c, 1, s2, False)]; spec.append((c, k, s2))
     sres = runner.run(sjobs)
-    msig = 0.0; mscale = 0.0
+    msig = 0.0; mscale = 0.0; escale = 0.0
     for q, (c, k, s2) in enumerate(spec):
         a, b, d = sres[3 * q][0], sres[3 * q + 1][0], sres[3 * q + 2][0]
         if a is None or b is None or d is None:
-            ck.violation("pipeline failure (MEG conductivity runs)", "MEG-only run failed on %s" % describe(c, 1), dict(kind="sphere-config", config=c, level=1)); continue
+            ck.violation("pipeline failure (MEG conductivity runs)", "conductivity-scaling run failed on %s" % describe(c, 1), dict(kind="sphere-config", config=c, level=1)); continue
+        nd = len(c["dipoles"]); ne = len(electrodes(c, 1)); off = ne * nd
+        # EEG: potentials scale exactly by 1/k (sphere_pot_scale_sigma holds for the discrete equations too)
+        for j in range(nd):
+            va = demean(col(a, 0, ne, nd, j)); vb = demean(col(b, 0, ne, nd, j))
+            ee = l2([x - k * y for x, y in zip(va, vb)]) / l2(va)
+            escale = max(escale, ee)
+            if not calibrate and not (ee <= 1e-9):
+                ck.violation("EEG does not scale by 1/k under sigma -> k sigma: %d layers" % len(c["radii"]),
+                             "the EEG gain of dipole %d times k differs by %.3g (relative, l2, zero-mean) from the gain with all conductivities multiplied by k = %g; %s" % (j, ee, k, describe(c, 1)),
+                             dict(kind="sphere-config", config=c, level=1, k=k, gain=a, gain_scaled=b)); break
+        a, b = a[off:], b[off:]
         na = l2(a)
         e1 = l2([x - y for x, y in zip(a, b)]) / na; e2 = l2([x - y for x, y in zip(a, d)]) / na
         mscale = max(mscale, e1); msig = max(msig, e2)
@@ -439,7 +459,7 @@ def main(replay=None, calibrate=False):
                   samples=samples, op_distribution=dist, worst_observed={"L%d %s" % k: round(v, 5) for k, v in sorted(worst.items())},
                   refinement=[dict(metric=n, frm=NVERT[a], to=NVERT[b], before=round(x, 5), after=round(y, 5)) for (n, a, b, x, y) in sorted(refine, key=lambda r: -r[2])][:24],
                   largest_fraction_of_bound={k_: dict(fraction=v[0], bin=v[1]) for k_, v in frac.items()},
-                  meg_sigma_scaling_max_rel=mscale, meg_sigma_independent_max_rel=msig,
+                  meg_sigma_scaling_max_rel=mscale, eeg_sigma_scaling_max_rel=escale, meg_sigma_independent_max_rel=msig,
                   traces_validated_against_impl=runner.evals,
                   explanation=EXPLANATION)
     return ck.finish()
